@@ -2,7 +2,7 @@
    The heap model faults (returns None) on any access to an unallocated or freed node and on reading a
    payload that was moved out; every theorem below therefore includes "does not fault". The aliasing
    model of Rust is outside the model (DESIGN.md 6). *)
-Require Import LruV.B.TakingB LruV.B.RiCheckSound LruV.B.RiCheck.
+Require Import LruV.B.TakingB LruV.B.RiCheckSound LruV.B.RiCheck LruV.B.OpsProps.
 
 (* RI h seal l (B/RepB.v): seal :: l are distinct allocated nodes, following next from the seal visits l and
    returns to the seal, prev mirrors next, every listed bucket owns a live key/value, the seal owns none. *)
@@ -31,6 +31,34 @@ Proof. exact realloc_RI. Qed.
 Theorem C07_traversal : forall h seal l pat, RI h seal l ->
   exists c, cursor_new h seal (match l with [] => true | _ => false end) = Some c /\ it_run h c pat = Some (fst (take_ends (rev l) pat)).
 Proof. exact iter_on_RI. Qed.
+
+(* the composed operations that the correspondence RUNS on the implementation's pointer graphs (component bsim:
+   the links and sizes they compute must be the ones observed after the step) preserve the invariant *)
+Theorem C07_b_touch : forall g a, RI (gh g) (gseal g) (glist g) -> In a (glist g) ->
+  exists g', b_touch g a = Some g' /\ RI (gh g') (gseal g') (glist g') /\ gseal g' = gseal g /\
+             same_data (gh g) (gh g') /\ exists l1 l2, glist g = l1 ++ a :: l2 /\ glist g' = a :: l1 ++ l2.
+Proof. exact b_touch_RI. Qed.
+Theorem C07_b_remove : forall g a, RI (gh g) (gseal g) (glist g) -> In a (glist g) ->
+  exists g', b_remove g a = Some g' /\ RI (gh g') (gseal g') (glist g') /\ gseal g' = gseal g /\ gh g' a = None /\
+             (forall b, b <> a -> payof (gh g') b = payof (gh g) b /\ sizeof_node (gh g') b = sizeof_node (gh g) b) /\
+             exists l1 l2, glist g = l1 ++ a :: l2 /\ glist g' = l1 ++ l2.
+Proof. exact b_remove_RI. Qed.
+Theorem C07_b_insert_new : forall g a sz k v, RI (gh g) (gseal g) (glist g) -> ~ In a (gseal g :: glist g) ->
+  exists g', b_insert_new g a sz (PLive k v) = Some g' /\ RI (gh g') (gseal g') (glist g') /\ gseal g' = gseal g /\
+             glist g' = a :: glist g /\ payof (gh g') a = Some (PLive k v) /\ sizeof_node (gh g') a = Some sz /\
+             (forall b, b <> a -> payof (gh g') b = payof (gh g) b /\ sizeof_node (gh g') b = sizeof_node (gh g) b).
+Proof. exact b_insert_new_RI. Qed.
+(* reallocation with the bucket addresses the new table actually chose: any source order, any distinct targets
+   outside the old structure *)
+Theorem C07_b_moves : forall pairs h seal l,
+  NoDup (seal :: l) -> chain h (seal :: l ++ [seal]) ->
+  NoDup (map fst pairs) -> (forall a, In a (map fst pairs) -> In a l) ->
+  NoDup (map snd pairs) -> (forall a', In a' (map snd pairs) -> ~ In a' (seal :: l)) ->
+  exists g', b_moves {| gh := h; gseal := seal; glist := l |} pairs = Some g' /\
+             glist g' = rename_pairs pairs l /\ gseal g' = seal /\
+             chain (gh g') (seal :: glist g' ++ [seal]) /\ NoDup (seal :: glist g') /\
+             (forall a, In a (map fst pairs) -> gh g' a = None).
+Proof. exact b_moves_chain. Qed.
 
 (* the monitor evaluated on the implementation's snapshot is sound for the structural part of RI *)
 Theorem C07_monitor_sound : forall g, ri_check g = true ->
@@ -63,4 +91,8 @@ Print Assumptions C07_set_head.
 Print Assumptions C07_touch.
 Print Assumptions C07_realloc.
 Print Assumptions C07_traversal.
+Print Assumptions C07_b_touch.
+Print Assumptions C07_b_remove.
+Print Assumptions C07_b_insert_new.
+Print Assumptions C07_b_moves.
 Print Assumptions C07_monitor_sound.
